@@ -280,6 +280,7 @@ func (c *stepCheck) checkIOFault(hung bool) {
 				if real == 0 {
 					why = "command-never-executed"
 				}
+				c.viol("C02", "wrong-label", "iofault/finished-without-success/"+why+"/"+tag(s.Name), "step %s is reported finished, but its command was executed %d times (processes %d) and the last execution did not succeed: its own outcome does not dictate that state", s.Name, real, len(rs))
 				c.viol("C03", "finished-without-success", "iofault/"+why+"/"+tag(s.Name), "step %s is reported finished, but its command was executed %d times (processes %d) and the last execution did not succeed", s.Name, real, len(rs))
 				c.viol("C04", "finished-without-success", "iofault/"+why+"/"+tag(s.Name), "step %s is reported finished, but its command was executed %d times (processes %d) and the last execution did not succeed", s.Name, real, len(rs))
 			}
